@@ -39,7 +39,7 @@ m = {
                  "kind_free_text": "verification-condition generator over the Python AST of /repo: per-path symbolic execution into one SMT value sort, modular calls by sidecar contract, loops summarised by fold symbols with instantiated induction axioms, obligations discharged by z3 5.1 in-process with /usr/bin/z3 4.8.12 and cvc5 1.0.3 as fall-back; counter-models replayed on the real code by pyvc.native"}],
     "checks": checks,
     "not_applicable": na,
-    "notes": "fix: commits in /repo (genuine defects found by the checks, see known_findings.json): af09e4a 0f6c3eb ee95db8 759a521 e4958e5 9138b6e 4daca9d 871d6e5 cef4d7c 79ed0ee 2f1bf07. Exit codes: 0 held, 1 VIOLATION, 2 UNDECIDED (never a violation), 3 checker error.",
+    "notes": "fix: commits in /repo (genuine defects found by the checks, see known_findings.json): af09e4a 0f6c3eb ee95db8 759a521 e4958e5 9138b6e 4daca9d 871d6e5 cef4d7c 79ed0ee 2f1bf07 19df577. Exit codes: 0 held, 1 VIOLATION, 2 UNDECIDED (never a violation), 3 checker error.",
 }
 json.dump(m, open(os.path.join(V, "MANIFEST.json"), "w"), indent=1)
 print("checks:", [c["property_id"] for c in checks], "n/a:", len(na))
